@@ -20,7 +20,10 @@ func hIterOps(N, L, nOps int, kinds []base.InternalKeyKind, bounded, limits, set
 	}
 	readSeq := base.SeqNum(sym.Range("readSeq", 1, n+1))
 
+	useDB := hUseDB
+	hUseDB = false // the reference scan is wired by hand
 	ref := hNewIterator(hBuildLevels(h, L), readSeq, nil)
+	hUseDB = useDB
 	var full []hOut
 	for valid := ref.First(); valid; valid = ref.Next() {
 		full = append(full, hCur(ref))
@@ -229,4 +232,23 @@ func VerifHarness_C02_BoundsLevelIter_Thorough() {
 func VerifHarness_C02_SetBoundsLevelIter_Thorough() {
 	hUseLevelIter = true
 	hIterOps(2, 2, 3, hSetRDel, false, false, true)
+}
+
+// the same oracles with the iterator built by the real DB.newIter over a version of stub
+// tables (options and bounds travel through processBounds, constructPointIter and one real
+// levelIter per level)
+func VerifHarness_C02_OpsDB_Thorough() {
+	hWithLeanDB(func() { hIterOps(2, 2, 2, hSetDelRDel, false, false, false) })
+}
+
+func VerifHarness_C02_BoundsDB() {
+	hWithLeanDB(func() { hIterOps(2, 2, 1, hSetRDel, true, false, false) })
+}
+
+func VerifHarness_C02_SetBoundsDB_Thorough() {
+	hWithLeanDB(func() { hIterOps(2, 2, 3, hSetRDel, false, false, true) })
+}
+
+func VerifHarness_C02_LimitsDB_Thorough() {
+	hWithLeanDB(func() { hIterOps(2, 2, 2, hSetDelRDel, false, true, false) })
 }
